@@ -149,6 +149,11 @@ def emitRecord (e : WExpr) (m : WMeta) : List (Nat × Ask) :=
            else .bad
   if onEventMakeThenWrite then (List.replicate onEventWrites (writes w)).flatten else []
 
+/-- an event recorded WHILE the thread is formatting another one (a field value whose `Debug` / `Display` emits through the
+dispatcher): the thread-local buffer is busy; the nested record is complete before the outer one is written -/
+def emitNested (e : WExpr) (inner outer : WMeta) : List (Nat × Ask) :=
+  (if onEventBusyBufferFallsBack then emitRecord e inner else []) ++ emitRecord e outer
+
 /-! ### what the expressions DENOTE (the specification) -/
 
 def sel : WExpr → WMeta → List Nat
